@@ -59,6 +59,8 @@ PROBES = [
     ("probe:one-constraint", "type B[T: (int,)] = list[T]\nb: B[str]\n", [(3, 12)]),
     ("probe:raise-semicolon", "def f() -> None:\n    try:\n        pass\n    except Exception:\n        raise ;\n", [(3, 12)]),
     ("probe:elif-unreachable", "# mypy: warn-unreachable\nx: int = 0\nif isinstance(x, int):\n    pass\nelif x:\n    pass\n", [(3, 12)]),
+    ("probe:multi-line-annotation", "from typing import Union\nx: Union[int,\n         bytes[float]]\n", [(3, 12)]),
+    ("probe:as-pattern-name", "def f(x: object) -> None:\n    match x:\n        case {} as a:\n            a = {}\n        case _:\n            pass\n", [(3, 12)]),
     ("probe:star-index-310", "def f(*args: *tuple[int, ...]) -> None: pass\n", [(3, 10), (3, 11)]),
 ]
 
@@ -300,6 +302,12 @@ def status_native_only(ctx, st, key, src, ver, dmsgs, nmsgs, detail) -> None:
                 "`raise ;` (a bare raise followed by a semicolon) is valid Python and accepted by the default front end; the native "
                 "front end rejects the file: %r" % texts[:1], detail)
         return
+    if texts and re.search(r"Unindent does not match any outer indentation level|Inconsistent use of tabs|Unexpected indentation", texts[0]) \
+            and any("\t" in l[: len(l) - len(l.lstrip())] and " " in l[: len(l) - len(l.lstrip())] for l in src_lines(src)):
+        _report(ctx, st, {"class": "mixed-tab-space-indentation-accepted-by-native", "blocked_by": "native"},
+                "indentation that mixes tabs and spaces (` \\t    ` under `  \\t  `): equal for CPython's tokenizer (tab = next multiple of 8; "
+                "default front end accepts), unequal for the native front end, which blocks with %r" % texts[0], detail)
+        return
     _report(ctx, st, {"class": "blocking-status-differs", "blocked_by": "native"},
             "only the native front end rejects the file with a blocking error: %r" % (texts[:1],), detail)
 
@@ -348,6 +356,28 @@ def compare_messages(ctx, st, key, src, ver, dmsgs, nmsgs, detail, second_pass: 
                 found.append((obs, what, ln))
         rest_d += ud
         rest_n += un
+    # the same thing said about a different *line*
+    for a in list(rest_d):
+        for b in list(rest_n):
+            if a[4:] == b[4:] and a[0] != b[0]:
+                why = line_attribution(lines, src, a, b)
+                if why is not None:
+                    found.append((why[0], why[1], a[0]))
+                    rest_d.remove(a)
+                    rest_n.remove(b)
+                    break
+    # … and the default front end's copies of it collapsed on the first line of a multi-line type expression
+    tc = type_contexts(src)
+    if tc is not None and rest_n:
+        dall = [parse_msg(m) for m in dmsgs]
+        for b in list(rest_n):
+            for lo, hi in tc[0]:
+                if lo[0] < b[0] <= hi[0] and any(x is not None and x[0] == lo[0] and x[4:] == b[4:] for x in dall):
+                    found.append(({"class": "multi-line-annotation-line-attribution"},
+                                  "%r: native front end on line %d; the default front end reports everything inside the type expression on "
+                                  "its first line %d (where equal messages are then merged)" % (b[5][:70], b[0], lo[0]), b[0]))
+                    rest_n.remove(b)
+                    break
     # leftovers, line by line: something is *said* by one front end only
     by_line: dict[int, tuple[list, list]] = {}
     for a in rest_d:
@@ -397,6 +427,30 @@ def compare_messages(ctx, st, key, src, ver, dmsgs, nmsgs, detail, second_pass: 
                 return      # the second pass has reported
     for obs, what, _ln in (unknown or found):
         _report(ctx, st, obs, what, detail)
+
+
+MISSING_IMPORT = re.compile(r'Cannot find implementation or library stub for module named "([\w.]+)"|'
+                            r'Library stubs not installed for "([\w.]+)"|missing-imports$|is installed, but missing library stubs')
+
+
+def line_attribution(lines, src: str, a, b):
+    """a (default) and b (native): same severity and text on different lines."""
+    what = "%r is reported on line %d by the default front end and on line %d by the native one" % (a[5][:70], a[0], b[0])
+    la = lines[a[0] - 1] if 1 <= a[0] <= len(lines) else ""
+    lb = lines[b[0] - 1] if 1 <= b[0] <= len(lines) else ""
+    m = MISSING_IMPORT.search(a[5])
+    if m and re.search(r"\b(import|from)\b", la) and re.search(r"\b(import|from)\b", lb):
+        mod = m.group(1) or m.group(2)
+        if mod is None or (mod.split(".")[0] in la and mod.split(".")[0] in lb):
+            return {"class": "repeated-missing-import-line-attribution"}, what + \
+                " — the module is imported on both lines; the one-per-module import error lands on a different occurrence"
+    ctx_ = type_contexts(src)
+    if ctx_ is not None and a[0] < b[0]:
+        for lo, hi in ctx_[0]:
+            if lo[0] == a[0] and lo[0] < b[0] <= hi[0]:
+                return {"class": "multi-line-annotation-line-attribution"}, what + \
+                    " — a type expression spanning several lines: the default front end's TypeConverter gives every nested type the first line"
+    return None
 
 
 def best_pairing(lines, ds: list, ns: list, src: str = ""):
@@ -510,6 +564,10 @@ def _start_mechanisms(line: str, a, b) -> list[str] | None:
         return ["except-as-name-column"]
     if line[max(0, hi - 2):hi] == "**":
         return ["mapping-pattern-rest-column"]
+    if between == "*" and stripped.startswith("case"):
+        return ["starred-pattern-name-column"]
+    if stripped.startswith("case") and re.search(r"\bas\s+$", line[:hi]) and lo >= len(line) - len(stripped):
+        return ["as-pattern-name-column"]
     if re.match(r"^elif\s+$", between) and not line[:lo].strip():
         return ["elif-statement-start-column"]
     m = re.match(r"^(.*?)\b(and|or)\b[\s(]*$", between, re.S)
@@ -532,7 +590,8 @@ def _end_mechanisms(lines, line: str, a, b, start: list[str], src: str = "") -> 
         return []
     if None in (a[2], a[3], b[2], b[3]):
         return None
-    if ("except-as-name-column" in start or "mapping-pattern-rest-column" in start) and (b[2], b[3]) <= (a[2], a[3]):
+    if ("except-as-name-column" in start or "mapping-pattern-rest-column" in start or "as-pattern-name-column" in start) \
+            and (b[2], b[3]) <= (a[2], a[3]):
         return []            # whole construct vs the name inside it
     if a[2] == a[0] and a[3] == a[1] + 1 and b[2] == b[0] and b[3] == b[1] + 1 and start:
         return []            # neither front end has an end here (a note): column+1 follows the start column
@@ -561,6 +620,8 @@ EXPLAIN = {
     "mapping-pattern-rest-column": "`**rest` of a mapping pattern: pattern vs name",
     "quoted-annotation-end-position": "a string-quoted type: the default front end measures the end inside the string",
     "non-ascii-column-units": "the line contains non-ASCII characters before the position (bytes vs characters)",
+    "starred-pattern-name-column": "error about the name bound by `*name` in a sequence pattern: star vs name",
+    "as-pattern-name-column": "error about the name bound by `case P as name`: pattern vs name",
     "elif-statement-start-column": "the statement of an `elif` branch starts at the keyword (default) vs at its condition (native)",
     "unary-operator-in-annotation-span": "`x: + 2`: the default front end points at the operand, the native one at the unary expression",
     "chained-boolean-operation-inner-span": "`a and b and c`: the default front end gives the nested `b and c` the span of the whole chain, the native one its own",
